@@ -199,7 +199,11 @@ def main():
     elif a[0] == 'suite':
         res = load('checks.json', {})
         sres = load('suite.json', {})
-        todo = [m for m in muts if m['id'] in res and not res[m['id']] and m['id'] not in sres]
+        skipw = ('callback', 'since_last_update', 'update_every', 'LOGGER', 'total', 'description', 'progress')   # progress reporting: not in any property
+        todo = [m for m in muts if m['id'] in res and not res[m['id']] and m['id'] not in sres and not any(w in m['orig'] or w in m['repl'] for w in skipw)]
+        # cheapest first: statement-level deletions and flag flips are the ones tests most often miss
+        order = {'del-call': 0, 'del-assign': 1, 'kwflip': 2, 'del-jump': 3, 'del-raise': 4, 'drop-operand': 5, 'cmp': 6, 'neg-cond': 7}
+        todo.sort(key=lambda m: order.get(m['op'], 9))
         print(len(todo), 'to run through the suite', flush=True)
         n = 0
         with cf.ThreadPoolExecutor(j) as ex:
